@@ -290,6 +290,11 @@ def extract():
     out["MINOR_FILTER_CN_ADD"] = num(one(half, "minor: position_cn + K").right)
 
     # ---- sam.py --------------------------------------------------------------------------------
+    # solutions.py: are the added variants of a name ordered by RefSeq position (a `key=` for the sort)?
+    so = parse("aldy/solutions.py")
+    gmn = func(so, "MinorSolution", "get_major_name")
+    srt2 = [n for n in ast.walk(gmn) if isinstance(n, ast.Call) and src(n.func) == "sorted" and "added" in src(n.args[0])]
+    out["NAME_ORDER_BY_REFSEQ"] = any(any(kw.arg == "key" for kw in n.keywords) for n in srt2)
     # gene.py: does the loader refuse variants whose replaced bases are not contiguous on the genome?
     ge = parse("aldy/gene.py")
     pm = func(ge, "Gene", "_init_alleles", "process_mutation")
@@ -381,6 +386,7 @@ def emit(c) -> str:
     A(f"def GUARD_REQUIRES_CN_REGION : Bool := {'true' if c['GUARD_REQUIRES_CN_REGION'] else 'false'}")
     A(f"def VCF_SKIPS_NONE : Bool := {'true' if c['VCF_SKIPS_NONE'] else 'false'}")
     A(f"def MINOR_FILTER_PER_STRUCTURE : Bool := {'true' if c['MINOR_FILTER_PER_STRUCTURE'] else 'false'}")
+    A(f"def NAME_ORDER_BY_REFSEQ : Bool := {'true' if c['NAME_ORDER_BY_REFSEQ'] else 'false'}")
     A(f"def LOADER_CHECKS_CONTIGUITY : Bool := {'true' if c['LOADER_CHECKS_CONTIGUITY'] else 'false'}")
     A(f"def MINOR_MUTATIONS_SORTED : Bool := {'true' if c['MINOR_MUTATIONS_SORTED'] else 'false'}")
     A(f"def MUTATIONS_ACCESSOR_COPIES : Bool := {'true' if c['MUTATIONS_ACCESSOR_COPIES'] else 'false'}")
